@@ -514,6 +514,11 @@ Qed.
 Definition hub_f5 : hub := hub_of world_f5.
 Definition tb_f5 : token := tok_of (w_bsei world_f5).
 Definition ts_f5 : token := tok_of (w_stsei world_f5).
+Definition synced_of (w : world) (h : hub) : hub :=
+  match slashing w A_hub h with Some x => x | None => h end.
+
+Lemma synced_f5 : slashing world_f5 A_hub hub_f5 = Some (synced_of world_f5 hub_f5).
+Proof. vm_compute. reflexivity. Qed.
 
 (** finding F5: in [world_f5] every premise of [unbond_succeeds] holds except [Backed] — the
     synchronised hub is in the class [Known_F5] (bSei pool: backing 0, one requested bSei) — and
@@ -527,15 +532,15 @@ Lemma unbond_F5_witness :
   hub_execute world_f5 hub_f5 A_hub A_stsei [] (HReceive bob 500 HkUnbond) = None /\
   snd (step world_f5 (OTx bob A_stsei (WCw20 (CSend A_hub 500 HkUnbond)) [])) = (false, []).
 Proof.
-  split; [vm_compute; repeat split|]. split; [reflexivity|]. split; [reflexivity|]. split; [reflexivity|].
-  split; [reflexivity|]. split; [split; vm_compute; discriminate|].
+  split; [vm_compute; repeat split|]. do 4 (split; [vm_compute; reflexivity|]).
+  split; [split; vm_compute; discriminate|].
   split.
-  { unfold E1_exit. repeat split; try (vm_compute; discriminate);
-      apply (wait_bounded_of_forallb hub_f5); vm_compute; reflexivity. }
+  { unfold E1_exit. do 5 (split; [vm_compute; discriminate|]).
+    apply (wait_bounded_of_forallb hub_f5). vm_compute. reflexivity. }
   split; [vm_compute; discriminate|].
-  split; [intros h1 H; vm_compute in H; inversion H; subst; vm_compute; discriminate|].
+  split; [intros h1 H; rewrite synced_f5 in H; inversion H; subst h1; vm_compute; discriminate|].
   split.
-  { eexists. split; [vm_compute; reflexivity|]. left. split; vm_compute; reflexivity. }
+  { eexists. split; [exact synced_f5|]. left. split; vm_compute; reflexivity. }
   split; [split; vm_compute; [reflexivity | discriminate]|].
   split; vm_compute; reflexivity.
 Qed.
@@ -547,6 +552,9 @@ Definition hub1 : hub := hub_of world1.
 Definition tb1 : token := tok_of (w_bsei world1).
 Definition ts1 : token := tok_of (w_stsei world1).
 
+Lemma synced_1 : slashing world1 A_hub hub1 = Some (synced_of world1 hub1).
+Proof. vm_compute. reflexivity. Qed.
+
 Example unbond_succeeds_nonvacuous :
   Wired world1 /\ w_hub world1 = Some hub1 /\ w_bsei world1 = Some tb1 /\ w_stsei world1 = Some ts1 /\
   paused hub1 = false /\ HPInv hub1 /\ E1_exit world1 hub1 tb1 ts1 /\ E2_clock world1 hub1 /\
@@ -554,13 +562,13 @@ Example unbond_succeeds_nonvacuous :
   0 < tk_supply tb1 /\ 0 < tk_supply ts1 /\
   hp_epoch (h_params hub1) < e_now (w_env world1) - hs_lut (h_state hub1).
 Proof.
-  split; [vm_compute; repeat split|]. split; [reflexivity|]. split; [reflexivity|]. split; [reflexivity|].
-  split; [reflexivity|]. split; [split; vm_compute; discriminate|].
+  split; [vm_compute; repeat split|]. do 4 (split; [vm_compute; reflexivity|]).
+  split; [split; vm_compute; discriminate|].
   split.
-  { unfold E1_exit. repeat split; try (vm_compute; discriminate);
-      apply (wait_bounded_of_forallb hub1); vm_compute; reflexivity. }
+  { unfold E1_exit. do 5 (split; [vm_compute; discriminate|]).
+    apply (wait_bounded_of_forallb hub1). vm_compute. reflexivity. }
   split; [vm_compute; discriminate|].
-  split; [intros h1 H; vm_compute in H; inversion H; subst; vm_compute; discriminate|].
-  split; [intros h1 H; vm_compute in H; inversion H; subst; split; intros _; vm_compute; reflexivity|].
+  split; [intros h1 H; rewrite synced_1 in H; inversion H; subst h1; vm_compute; discriminate|].
+  split; [intros h1 H; rewrite synced_1 in H; inversion H; subst h1; split; intros _; vm_compute; reflexivity|].
   repeat split; vm_compute; reflexivity.
 Qed.
